@@ -274,7 +274,8 @@ theorem clone_same_settings (c : Option TlsCfg) : step c .clone = c := rfl
 wiring facts), every stack of the clone reads the clone's options object — so a setter on
 the clone governs all its stacks and none of the original's. -/
 theorem clone_keeps_source (facts : List WireSite)
-    (h2 : wireOK facts .clone .h2 = true) (h3 : wireOK facts .enableHTTP3 .h3 = true)
+    (h2 : wireOK facts .clone .h2 = true)
+    (h3 : (wireOK facts .clone .h3 && wireOK facts .enableHTTP3 .h3) = true)
     (w : Wiring) (fresh : Nat) :
     (cloneWiring facts w fresh).wired
     ∧ ∀ s o, (cloneWiring facts w fresh).optsOf s = some o → o = fresh := by
@@ -290,7 +291,8 @@ theorem clone_keeps_source (facts : List WireSite)
       intro h; exact h.symm
 
 theorem clone_isolated_from_original (facts : List WireSite)
-    (h2 : wireOK facts .clone .h2 = true) (h3 : wireOK facts .enableHTTP3 .h3 = true)
+    (h2 : wireOK facts .clone .h2 = true)
+    (h3 : (wireOK facts .clone .h3 && wireOK facts .enableHTTP3 .h3) = true)
     (w : Wiring) (hw : w.wired) (fresh : Nat) (hfresh : fresh ≠ w.own) (s s' : Stack) (o o' : Nat)
     (ho : (cloneWiring facts w fresh).optsOf s = some o) (ho' : w.optsOf s' = some o') : o ≠ o' := by
   have hc := (clone_keeps_source facts h2 h3 w fresh).2 s o ho
@@ -305,7 +307,7 @@ theorem clone_isolated_from_original (facts : List WireSite)
 /-- Necessity: a `Clone` that takes the address of the ORIGINAL's options (`&t.Options` for
 `&tt.Options`) leaves the clone's HTTP/2 stack reading the original's settings. -/
 theorem miswired_clone_reads_original :
-    (cloneWiring [⟨.clone, .h2, false⟩, ⟨.enableHTTP3, .h3, true⟩] ⟨10, 10, some 10⟩ 20).optsOf .h2 = some 10 := by
+    (cloneWiring [⟨.clone, .h2, false⟩, ⟨.clone, .h3, true⟩, ⟨.enableHTTP3, .h3, true⟩] ⟨10, 10, some 10⟩ 20).optsOf .h2 = some 10 := by
   decide
 
 end Req.Props.C12
